@@ -107,44 +107,51 @@ def r062(prog, chk):
     dx, dy = prog.reaching(ga, rx.id, rx), prog.reaching(ga, ry.id, ry)
 
     def leaf_attrs(defs, depth=0):
-        """attribute names (.x / .y) or scalar names the returned coordinate derives from"""
+        """(attribute name .x / .y or '?', number of rounding steps on the way) for everything the returned coordinate derives from"""
         out = set()
         for d in defs:
             v, how = d.element()
             if v is None:
-                out.add("?")
+                out.add(("?", 0))
                 continue
             out |= coord_leaves(v, d)
         return out
 
-    def coord_leaves(v, d, depth=0):
+    ROUNDERS = ("quantize", "otRound", "round", "int", "roundFunc", "floor", "ceil")
+
+    def coord_leaves(v, d, depth=0, rounds=0):
         out = set()
-        if depth > 6:
-            return {"?"}
+        if depth > 8:
+            return {("?", rounds)}
         if isinstance(v, ast.Attribute) and v.attr in ("x", "y"):
-            return {v.attr}
-        if isinstance(v, ast.Call) and A.callee_name(v) in ("quantize", "collapse_varscalar", "otRound") and v.args:
-            return coord_leaves(v.args[0], d, depth + 1)
+            return {(v.attr, rounds)}
+        if isinstance(v, ast.Call) and A.callee_name(v) in ROUNDERS + ("collapse_varscalar",) and v.args:
+            return coord_leaves(v.args[0], d, depth + 1, rounds + (1 if A.callee_name(v) in ROUNDERS else 0))
         if isinstance(v, ast.Name):
             ds = prog.reaching(ga, v.id, v)
             # variable scalars: find add_value calls on this name
             adds = [c for c in calls_named(ga, "add_value") if isinstance(c.func.value, ast.Name) and c.func.value.id == v.id]
             for c in adds:
-                out |= coord_leaves(c.args[1], d, depth + 1)
+                out |= coord_leaves(c.args[1], d, depth + 1, rounds)
             for dd in ds:
                 vv, how = dd.element()
                 if vv is None or (isinstance(vv, ast.Call) and A.callee_name(vv) == "VariableScalar"):
                     continue
                 if dd.kind == "param":
-                    out.add("?")
+                    out.add(("?", rounds))
                     continue
-                out |= coord_leaves(vv, dd, depth + 1)
+                out |= coord_leaves(vv, dd, depth + 1, rounds)
             return out
-        return {"?"}
+        return {("?", rounds)}
 
-    lx, ly = leaf_attrs(dx), leaf_attrs(dy)
+    lxr, lyr = leaf_attrs(dx), leaf_attrs(dy)
+    lx, ly = {a for a, _ in lxr}, {a for a, _ in lyr}
     chk.ob("R06.2", f"{ga.short}|first returned coordinate only derives from .x, second only from .y", lx == {"x"} and ly == {"y"}, where(ga, rets[0]), detail=f"x <- {sorted(lx)}, y <- {sorted(ly)}",
            message=f"{ga.short} returns coordinates in the wrong roles: first derives from {sorted(lx)}, second from {sorted(ly)}")
+    worst = max([n_ for _, n_ in lxr | lyr] or [0])
+    chk.ob("R06.2", f"{ga.short}|a coordinate is rounded at most once on its way out", worst <= 1, where(ga, rets[0]), detail=f"rounding steps per derivation: {sorted({n_ for _, n_ in lxr | lyr})}",
+           message=f"{ga.short}: a coordinate passes through {worst} rounding steps (e.g. otRound and then quantize): double rounding moves values just below a half step "
+                   f"up a whole step, so the anchor is no longer the nearest multiple of the quantisation step")
     # static path: quantised when the option exists
     qs = [c for c in A.body_nodes(ga.node) if isinstance(c, ast.Call) and prog.is_call_to(ga, c, "ufo2ft.util.quantize")]
     ok = len(qs) == 2 and all(T(A.arg_at(c, 1, "factor")) == "self.options.quantization" for c in qs) \
@@ -190,7 +197,7 @@ def r062(prog, chk):
     ok = all(any(T(v) == a and T(t.value) == "self" for s, t, v in attr_stores(na, a)) for a in ("x", "y", "name"))
     chk.ob("R06.2", f"{na.short}|stores name / x / y unchanged", ok, where(na), detail="self.x = x; self.y = y", message="NamedAnchor.__init__ does not store its coordinates under their own names")
     check_helper(prog, chk, "R06.2", "ufo2ft.util:quantize")
-    chk.minimum("R06.2", 8)
+    chk.minimum("R06.2", 9)
 
 
 # ----------------------------------------------------------------------------- R06.3
@@ -600,6 +607,8 @@ def r0612(prog, chk):
 
 
 MUTANTS = [
+    M("static anchors rounded to integers before quantisation (seeded C06e)", "ufo2ft/featureWriters/baseFeatureWriter.py", "BaseFeatureWriter._getAnchor",
+      "x = anchor.x\ny = anchor.y", "x = otRound(anchor.x)\ny = otRound(anchor.y)", rule="R06.2"),
     M("ligature eligibility: or -> and (mutation scan k=270)", "ufo2ft/featureWriters/markFeatureWriter.py", "MarkFeatureWriter._makeMarkToLigaAttachments",
       "glyphName in markGlyphNames or (ligatureClass is not None and glyphName not in ligatureClass)", "glyphName in markGlyphNames and (ligatureClass is not None and glyphName not in ligatureClass)", rule="R06.7"),
     M("base eligibility ignores the GDEF base class", "ufo2ft/featureWriters/markFeatureWriter.py", "MarkFeatureWriter._makeMarkToBaseAttachments",
